@@ -369,7 +369,7 @@ def _load_here(folder, names, use_xarray, roots=None) -> dict:
 
 def campaigns(tier):
     strat = st.fixed_dictionaries({"prog": mp.map_programs(max_funcs=3, max_outputs=3)})
-    return [Campaign("reload", body, strat, quick=640, thorough=8000, describe="run in a child, reload here and in a fresh interpreter")]
+    return [Campaign("reload", body, strat, quick=480, thorough=8000, describe="run in a child, reload here and in a fresh interpreter")]
 
 
 def _main_class_case(prog: dict) -> bool:
